@@ -54,7 +54,10 @@ var bigArray = func() interface{} {
 func unrelatedActivity() {
 	cfg := modelConfig(nil, false)
 	jsonpath.Retrieve(`$[*]`, bigArray) // more than 256 results: buffers beyond the usual sizes
-	for _, p := range []string{`$..*`, `$.l[?(@.a == $.x)]`, `$.l[0].b[*]`, `$.zz.*`, `$.l[*].a.g1()`, `$.l[?(@.b[?(@ > 30)])]`, `$.nosuch[`, `$.l[?(@.a == 1)].x`} {
+	for _, p := range []string{`$..*`, `$.l[?(@.a == $.x)]`, `$.l[0].b[*]`, `$.zz.*`, `$.l[*].a.g1()`, `$.l[?(@.b[?(@ > 30)])]`, `$.nosuch[`, `$.l[?(@.a == 1)].x`,
+		// filters on OBJECTS whose expression does not depend on the member (whole-match true / false), early exits,
+		// ranges as last step, nested objects: every way a pooled key slice or result buffer is taken and given back
+		`$[?($.x == 5)]`, `$.zz[?($.x)]`, `$.zz[?(!$.x)]`, `$[?($.x == 6)]`, `$.zz[?(@ > 2)]`, `$.l[0].b[0:3]`, `$.l[0].b[1:2]`, `$.zz[?($.nosuch == $.nosuch2)]`, `$.*.*`, `$.l[0:2]`} {
 		jsonpath.Retrieve(p, unrelatedDoc, cfg)
 	}
 }
@@ -95,6 +98,7 @@ func (w *worker) runHist(c *histCase, raw []byte) {
 			op   int
 		}
 		var kept []saved
+		docObjs, docSnaps := map[string]interface{}{}, map[string]string{}
 		for oi, op := range c.Ops {
 			switch op.K {
 			case "unrelated":
@@ -113,8 +117,19 @@ func (w *worker) runHist(c *histCase, raw []byte) {
 				if mixed {
 					m = Mode{Number: oi%2 == 0}
 				}
-				doc := c.Docs[op.D-1].ToGo(m)
+				// the caller evaluates the same document OBJECT again when the history names the same document again
+				dk := fmt.Sprintf("%d/%v", op.D, m.Number)
+				doc, seen := docObjs[dk]
+				if !seen {
+					doc = c.Docs[op.D-1].ToGo(m)
+					docObjs[dk] = doc
+				}
 				before := snap(doc)
+				if seen && before != docSnaps[dk] {
+					w.viol("C05", "earlier-document-changed-by-a-later-call", text, docSnaps[dk], fmt.Sprintf("history: %s: document #%d, untouched by the caller, reads %s now", histString(c, oi), op.D, before), sig, raw)
+					return
+				}
+				docSnaps[dk] = before
 				r := safeCall(pr.F, doc)
 				w.count("C05:calls", 1)
 				if r.Panic != nil {
